@@ -72,13 +72,13 @@ func main() {
 		if *nprog == 0 {
 			*nprog = 5
 			if *tier == "thorough" {
-				*nprog = 24
+				*nprog = 40
 			}
 		}
 		if *nvalues == 0 {
 			*nvalues = 3
 			if *tier == "thorough" {
-				*nvalues = 8
+				*nvalues = 12
 			}
 		}
 		os.Exit(run(*repo, *dir, *seed, *nprog, *nvalues, *keep))
@@ -183,8 +183,10 @@ func run(repo, dir string, seed uint64, nprog, nvalues int, keep bool) int {
 		{Prog: dp, Recurse: true, Options: []string{"gen_deep_equal"}, Tag: "directed"},
 		{Prog: dp, Recurse: true, Options: []string{"gen_deep_equal", "validate_set=false"}, Tag: "directed"},
 		{Prog: dp, Recurse: true, Options: []string{}, Tag: "directed"},
+		{Prog: directedValueProgram(), Recurse: true, Options: []string{"gen_deep_equal", "value_type_in_container"}, Tag: "directed-value"},
 	}
-	const ndirected = 3
+	const ndirected = 3  // units of directedProgram (they get the witnesses)
+	const nfixed = 4     // hand-written units (more values per struct: no extra compile cost)
 	for i := 0; i < nprog; i++ {
 		p := idlgen.Generate(r, cfg)
 		p.Stats(out.Count)
@@ -215,8 +217,8 @@ func run(repo, dir string, seed uint64, nprog, nvalues int, keep bool) int {
 		out.Count("unit.unusable")
 		out.Sample(map[string]interface{}{"unusable_unit": u.Key, "tag": u.Tag, "options": u.Options, "exit": u.Exit, "build": firstN(u.BuildErrors, 3)})
 		fmt.Printf("UNIT %s (%s %v) not usable: exit=%d %s %v\n", u.Key, u.Tag, u.Options, u.Exit, firstLine(u.Stderr), firstN(u.BuildErrors, 3))
-		if i < ndirected {
-			out.Fail(vl.OracleFail{Key: "directed-unit-unusable", What: "the directed program does not generate/compile", Input: map[string]interface{}{"options": u.Options, "idl": dp.Render()},
+		if i < nfixed {
+			out.Fail(vl.OracleFail{Key: "directed-unit-unusable", What: "the directed program does not generate/compile", Input: map[string]interface{}{"options": u.Options, "idl": idlOf(u)},
 				Expected: "compiles", Observed: fmt.Sprint(u.Exit, firstLine(u.Stderr), firstN(u.BuildErrors, 3))})
 		}
 	}
@@ -258,7 +260,7 @@ func run(repo, dir string, seed uint64, nprog, nvalues int, keep bool) int {
 		for sidx := range u.Schema.Structs {
 			key := fmt.Sprintf("%s:%d", u.Key, sidx)
 			nv := nvalues
-			if ui < ndirected {
+			if ui < nfixed {
 				nv = nvalues * 4 // the directed program costs no extra compile time and holds every map shape
 			}
 			for k := 0; k < nv; k++ {
@@ -388,6 +390,9 @@ func goText(c *check) string {
 func idlOf(u *batch.UnitInfo) interface{} {
 	if u.Tag == "directed" {
 		return directedProgram().Render()
+	}
+	if u.Tag == "directed-value" {
+		return directedValueProgram().Render()
 	}
 	return u.IDLDir
 }
